@@ -1,12 +1,21 @@
 (* Ros2SchemaFacts.v - proofs about the model of the ROS 2 schema assembly (Ros2Schema.v):
-   part 1: totality.  get_schema, scan_lines, get_schema_for, get_schemas produce Ok or Err for every input; the Panic
-           site of fieldToQualifiedROSType is unreachable; the Panic site of the buffer access in getSchemas is
-           unreachable from get_schema_for (an invariant of the loop; `assemble` alone can reach it from a state
-           that get_schema_for never creates); the fuel `fs_weight t` always suffices;
-   part 2: db3_to_mcap_fs;
-   part 3: functional correctness on trees that realise an abstract universe of definitions. *)
+   part 1: totality, for every tree, every list of search directories and every type name.  get_schema, scan_lines,
+           get_schema_for, get_schemas produce Ok or Err; the panic site of fieldToQualifiedROSType is unreachable;
+           the panic site of the buffer access in getSchemas is unreachable from get_schema_for (loop invariant
+           buf_inv; `assemble` alone reaches it from a state that get_schema_for never creates:
+           assemble_panic_outside_invariant); the fuel `fs_weight t` always suffices: every enqueued type is the
+           Clean-ed "P/msg/C", which determines a line of an index file of the tree (keyrel, pigeon), and the tree has
+           at most fs_weight t - 2 such lines;
+   part 2: db3_to_mcap_fs is Ok for every input; the two cases;
+   part 3: functional correctness on the tree (tree_of) of an abstract universe of definitions (mdef): the assembled
+           text is expected_schema (breadth-first order of first occurrence, cycles included); the specification
+           is independent of its fuel (bfs_order_stable) and characterised (bfs_order_spec); special cases;
+           the composition with the db3 conversion; examples used by properties/C18_schema.v. *)
 From Coq Require Import List NArith ZArith Bool Lia ZifyN ZifyNat ZifyBool.
 From Coq.Strings Require Import Byte.
+From Coq.Strings Require String.
+Import String.StringSyntax.
+Delimit Scope string_scope with string.
 From Mcap Require Import Bytes BytesFacts GoSem Records Writer Ros1Msg Ros1MsgFacts Db3 Db3Facts Ros2Schema.
 Import ListNotations.
 Open Scope nat_scope.
@@ -1545,9 +1554,10 @@ Section Universe3.
   (* (a) a definition without references: the file content *)
   Theorem expected_leaf d : In d defs -> refs_of d = [] -> expected_schema defs (type_of d) = text_of d.
   Proof.
-    intros Hd Hr. unfold expected_schema, bfs_order. destruct defs as [|d0 l] eqn:E; [destruct Hd|].
-    rewrite <- E in *. cbn [length bfs]. rewrite (lookup_type defs Hwf d Hd), Hr. cbn [fresh app].
-    replace (bfs (length l) defs [] ([type_of d] ++ [])) with (@nil bytes) by (destruct (length l); reflexivity).
+    intros Hd Hr. unfold expected_schema, bfs_order.
+    assert (Hn : exists n, length defs = S n) by (destruct defs; [destruct Hd|eexists; reflexivity]).
+    destruct Hn as [n ->]. cbn [bfs]. rewrite (lookup_type defs Hwf d Hd), Hr. cbn [fresh app].
+    replace (bfs n defs [] [type_of d]) with (@nil bytes) by (destruct n; reflexivity).
     unfold lookup_all. cbn [flat_map]. rewrite (lookup_type defs Hwf d Hd). reflexivity.
   Qed.
 
@@ -1634,4 +1644,218 @@ Proof.
     intros ty Hty. unfold tys in Hty. apply in_map_iff in Hty. destruct Hty as (x & <- & Hx).
     apply filter_In in Hx. destruct Hx. auto.
   - intros x Hx Hm. apply schemas_of_get. unfold tys. apply in_map. apply filter_In. auto.
+Qed.
+
+(* ------------------------------------------------------------------------------------------ *)
+(* examples (used by properties/C18_schema.v)                                                  *)
+
+Definition B (s : String.string) : bytes := String.list_byte_of_string s.
+Arguments B s%string.
+Definition fld (t : ftype) (n : String.string) : dline := DField t [] (B n).
+Arguments fld t n%string.
+
+(* two packages; pa/A and pb/Bb refer to each other, both refer to pa/Leaf *)
+Definition ex_defs : list mdef :=
+  [ {| md_pkg := B "pa"; md_name := B "A";
+       md_lines := [DComment (B " the root"); fld (FPrim (B "int32")) "x";
+                    DField (FQual (B "pb") (B "Bb")) (B "[]") (B "bs"); fld (FLocal (B "Leaf")) "l"] |};
+    {| md_pkg := B "pb"; md_name := B "Bb";
+       md_lines := [fld (FQual (B "pa") (B "A")) "back"; DEmpty; fld (FQual (B "pa") (B "Leaf")) "l2"; DEmpty] |};
+    {| md_pkg := B "pa"; md_name := B "Leaf";
+       md_lines := [DField (FPrim (B "string")) (B "<=5") (B "s # bounded")] |} ].
+Definition ex_dir : list bytes := [B "opt"; B "ros"].
+Definition ex_tree : fstree := tree_of ex_dir ex_defs.
+
+Definition ex_text_A : bytes := B
+"# the root
+int32 x
+pb/Bb[] bs
+Leaf l
+================================================================================
+MSG: pb/Bb
+pa/A back
+
+pa/Leaf l2
+================================================================================
+MSG: pa/Leaf
+string<=5 s # bounded".
+
+Definition ex_text_Bb : bytes := B
+"pa/A back
+
+pa/Leaf l2
+================================================================================
+MSG: pa/A
+# the root
+int32 x
+pb/Bb[] bs
+Leaf l
+================================================================================
+MSG: pa/Leaf
+string<=5 s # bounded".
+
+Definition ex_text_Leaf : bytes := B "string<=5 s # bounded".
+
+(* hostile definitions: rendered without any check *)
+Definition hostile_defs : list mdef :=
+  [ {| md_pkg := B "p"; md_name := B "Slash"; md_lines := [fld (FLocal (B "/")) "x"] |};
+    {| md_pkg := B "p"; md_name := B "Slashes"; md_lines := [fld (FLocal (B "//")) "y"] |};
+    {| md_pkg := B "p"; md_name := B "Empty"; md_lines := [] |};
+    {| md_pkg := B "p"; md_name := B "Dangling"; md_lines := [fld (FLocal (B "Nowhere")) "z"] |};
+    {| md_pkg := B "p"; md_name := B "DotDot"; md_lines := [fld (FQual (B "..") (B "X")) "z"] |} ].
+Definition hostile_tree : fstree := tree_of ex_dir hostile_defs.
+
+(* the index entry of package pa is a directory / the definition file of pa/A is missing *)
+Definition index_dir_tree : fstree :=
+  {| ft_files := map (def_file ex_dir) ex_defs;
+     ft_dirs := [ex_dir ++ [s_share; s_ament_index; s_resource_index; s_rosidl; B "pa"]] |}.
+Definition index_below_file_tree : fstree :=
+  {| ft_files := (ex_dir ++ [s_share; s_ament_index; s_resource_index; s_rosidl; B "pa"; B "x"], []) :: map (def_file ex_dir) ex_defs;
+     ft_dirs := [] |}.
+Definition missing_def_tree : fstree :=
+  {| ft_files := map (index_file ex_dir ex_defs) (pkgs ex_defs) ++ map (def_file ex_dir) (tl ex_defs); ft_dirs := [] |}.
+
+(* one level of references: pa/Top refers to pa/Leaf (twice) and pb/Other *)
+Definition ex_defs2 : list mdef :=
+  [ {| md_pkg := B "pa"; md_name := B "Top";
+       md_lines := [fld (FLocal (B "Leaf")) "a"; fld (FQual (B "pb") (B "Other")) "b"; fld (FQual (B "pa") (B "Leaf")) "c"; DEmpty] |};
+    {| md_pkg := B "pa"; md_name := B "Leaf"; md_lines := [fld (FPrim (B "bool")) "x"] |};
+    {| md_pkg := B "pb"; md_name := B "Other"; md_lines := [fld (FPrim (B "float64")) "y"; DEmpty] |} ].
+
+Example ex_defs2_one_level :
+  wf_defs ex_defs2 = true /\
+  exists d, In d ex_defs2 /\ md_name d = B "Top" /\
+            forall q d', In q (refs_of d) -> lookup ex_defs2 q = Some d' -> refs_of d' = [].
+Proof.
+  split; [vm_compute; reflexivity|]. eexists. split; [left; reflexivity|]. split; [reflexivity|].
+  intros q d' Hq Hl. vm_compute in Hq.
+  destruct Hq as [<-|[<-|[<-|[]]]]; vm_compute in Hl; injection Hl as <-; reflexivity.
+Qed.
+
+(* the initial state of get_schema_for satisfies the hypotheses of assemble_fine *)
+Lemma assemble_fine_initial t dirs ty sc :
+  let q := [{| sd_parent := hd [] (split_byte 47 ty); sd_type := ty; sd_schema := sc |}] in
+  buf_inv true [] q /\ Forall sd_ok q /\ NoDup (@nil bytes) /\ incl [] [ty] /\ Forall (good t) [] /\
+  length q + (length (keys t) - length (@nil bytes)) + 1 <= fs_weight t /\
+  no_crash (assemble (fs_weight t) t dirs q [ty] true []) = true.
+Proof.
+  intros q.
+  assert (H1 : buf_inv true [] q) by (right; right; auto).
+  assert (H2 : Forall sd_ok q) by (constructor; [apply root_sd_ok|constructor]).
+  assert (H3 : length q + (length (keys t) - length (@nil bytes)) + 1 <= fs_weight t)
+    by (pose proof (keys_weight t) as H; simpl; lia).
+  split; [exact H1|]. split; [exact H2|]. split; [constructor|]. split; [apply incl_nil_l|]. split; [constructor|].
+  split; [exact H3|].
+  apply (assemble_fine t dirs _ _ _ _ _ []); auto; [constructor|apply incl_nil_l].
+Qed.
+
+(* ------------------------------------------------------------------------------------------ *)
+(* what the breadth-first order is: no repetition, closed under references, nothing else       *)
+
+Lemma fresh_complete refs : forall seen x, In x refs -> In x seen \/ In x (fresh refs seen).
+Proof.
+  induction refs as [|q r IH]; simpl; intros seen x; [tauto|]. intros [<-|Hx].
+  - destruct (mem_b q seen) eqn:E; [left; apply mem_b_In; exact E|right; left; reflexivity].
+  - destruct (mem_b q seen); [apply IH; exact Hx|].
+    destruct (IH (seen ++ [q]) x Hx) as [H|H]; [|right; right; exact H].
+    apply in_app_or in H. destruct H as [H|[<-|[]]]; [left; exact H|right; left; reflexivity].
+Qed.
+
+Lemma type_of_pair_inj d d' : mdef_ok d = true -> mdef_ok d' = true -> type_of d = type_of d' ->
+  md_pkg d = md_pkg d' /\ md_name d = md_name d'.
+Proof.
+  unfold mdef_ok. rewrite !andb_true_iff. intros [[H1 H2] _] [[H3 H4] _] H.
+  apply name_pkg_ok in H2, H4. destruct H2 as [H2 _]. destruct H4 as [H4 _].
+  assert (F : forall p n, pkg_ok p = true -> pkg_ok n = true -> fields_by 47 (join_slash [p; s_msg_word; n]) = [p; s_msg_word; n]).
+  { intros p n Hp Hn. apply fields_join_slash. pose proof (nm_comp_ok _ Hp). pose proof (nm_comp_ok _ Hn).
+    pose proof msg_comp_ok. fall. }
+  pose proof (F _ _ H1 H2) as F1. pose proof (F _ _ H3 H4) as F2. unfold type_of in H. rewrite H, F2 in F1.
+  injection F1 as -> ->. auto.
+Qed.
+
+Section Universe4.
+  Variable defs : list mdef.
+  Hypothesis Hwf : wf_defs defs = true.
+  Let types := map type_of defs.
+
+  Definition refers (q r : bytes) : Prop := exists d, lookup defs q = Some d /\ In r (refs_of d).
+
+  Lemma bfs_shape : forall f queue seen added,
+    incl queue types -> NoDup added -> incl added seen -> incl added types ->
+    length queue + (length defs - length added) <= f ->
+    exists extra, bfs f defs queue seen = queue ++ extra /\ NoDup extra /\
+      (forall x, In x extra -> ~ In x seen) /\
+      (forall q r, In q (queue ++ extra) -> refers q r -> In r seen \/ In r extra) /\
+      (forall x, In x extra -> exists q, In q (queue ++ extra) /\ refers q x).
+  Proof.
+    induction f as [|f IH]; intros queue seen added Hq Hnd Hin Hty Hf.
+    - destruct queue; [|simpl in Hf; lia]. exists []. simpl. repeat split; try constructor; tauto.
+    - destruct queue as [|q rest].
+      { exists []. simpl. repeat split; try constructor; tauto. }
+      cbn [bfs].
+      assert (Hqt : In q types) by (apply Hq; left; reflexivity).
+      apply in_map_iff in Hqt. destruct Hqt as (d & <- & Hd). rewrite (lookup_type defs Hwf d Hd).
+      set (new := fresh (refs_of d) seen).
+      destruct (fresh_spec (refs_of d) seen) as [Hn1 Hn2]. fold new in Hn1, Hn2.
+      assert (Hnd2 : NoDup (added ++ new)).
+      { apply NoDup_app_intro; auto. intros x Hx Hx2. destruct (Hn2 x Hx2) as [_ Hn]. apply Hn, Hin, Hx. }
+      assert (Hty2 : incl (added ++ new) types).
+      { apply incl_app; auto. intros x Hx. eapply fresh_types'; eauto. }
+      pose proof (NoDup_incl_length Hnd2 Hty2) as Hlen. unfold types in Hlen. rewrite map_length, app_length in Hlen.
+      destruct (IH (rest ++ new) (seen ++ new) (added ++ new)) as (extra & E1 & E2 & E3 & E4 & E5); auto.
+      + apply incl_app; [intros y Hy; apply Hq; right; exact Hy|]. intros x Hx. eapply fresh_types'; eauto.
+      + apply incl_app; [apply incl_appl; exact Hin|apply incl_appr; apply incl_refl].
+      + rewrite !app_length. simpl in Hf. lia.
+      + exists (new ++ extra). rewrite E1. split; [cbn [app]; rewrite <- app_assoc; reflexivity|].
+        split; [|split; [|split]].
+        * apply NoDup_app_intro; auto. intros x Hx Hx2. apply (E3 x Hx2). apply in_or_app. right. exact Hx.
+        * intros x Hx Hs. apply in_app_or in Hx. destruct Hx as [Hx|Hx].
+          -- destruct (Hn2 x Hx) as [_ Hn]. contradiction.
+          -- apply (E3 x Hx). apply in_or_app. left. exact Hs.
+        * intros q0 r Hq0 (d0 & Hl0 & Hr0). cbn [app] in Hq0. destruct Hq0 as [<-|Hq0].
+          -- rewrite (lookup_type defs Hwf d Hd) in Hl0. injection Hl0 as <-.
+             destruct (fresh_complete (refs_of d) seen r Hr0) as [H|H]; [left; exact H|].
+             right. apply in_or_app. left. exact H.
+          -- rewrite app_assoc in Hq0. destruct (E4 q0 r Hq0) as [H|H]; [exists d0; auto| |].
+             ++ apply in_app_or in H. destruct H as [H|H]; [left; exact H|right; apply in_or_app; left; exact H].
+             ++ right. apply in_or_app. right. exact H.
+        * intros x Hx. apply in_app_or in Hx. destruct Hx as [Hx|Hx].
+          -- exists (type_of d). split; [left; reflexivity|]. exists d. split; [apply lookup_type; auto|].
+             destruct (Hn2 x Hx). auto.
+          -- destruct (E5 x Hx) as (q0 & Hq0 & Hr0). exists q0. split; [|exact Hr0].
+             cbn [app]. right. rewrite app_assoc. exact Hq0.
+  Qed.
+
+  (* bfs_order starts with ty, has no repetition, contains every type that one of its members refers to, and every
+     member but ty is referred to by a member *)
+  Theorem bfs_order_spec ty : In ty types ->
+    exists extra, bfs_order defs ty = ty :: extra /\ NoDup (ty :: extra) /\
+      (forall q r, In q (ty :: extra) -> refers q r -> In r (ty :: extra)) /\
+      (forall x, In x extra -> exists q, In q (ty :: extra) /\ refers q x).
+  Proof.
+    intros Hty. destruct (bfs_shape (length defs) [ty] [ty] [ty]) as (extra & E1 & E2 & E3 & E4 & E5).
+    - intros x [<-|[]]. exact Hty.
+    - constructor; [intros []|constructor].
+    - apply incl_refl.
+    - intros x [<-|[]]. exact Hty.
+    - destruct defs; [destruct Hty|]. simpl. lia.
+    - exists extra. split; [exact E1|]. split; [|split].
+      + constructor; auto. intros H. apply (E3 ty H). left. reflexivity.
+      + intros q r Hq Hr. destruct (E4 q r Hq Hr) as [[<-|[]]|H]; [left; reflexivity|right; exact H].
+      + exact E5.
+  Qed.
+End Universe4.
+
+Definition ex_topic (id : Z) (ty : bytes) : topic_row :=
+  {| t_id := id; t_name := B "/t"; t_type := ty; t_fmt := B "cdr"; t_qos := None |}.
+(* the second topic is a service topic: not message-typed, its type is not looked up *)
+Definition ex_fs_topics : list topic_row :=
+  [ex_topic 1 (B "pa/msg/A"); ex_topic 2 (B "pa/srv/S"); ex_topic 3 (B "pb/msg/Bb")].
+
+Example ex_fs_topics_in_universe :
+  wf_defs ex_defs = true /\
+  forall x, In x ex_fs_topics -> is_message_type (t_type x) = true -> In (t_type x) (map type_of ex_defs).
+Proof.
+  split; [vm_compute; reflexivity|].
+  intros x [<-|[<-|[<-|[]]]] H; vm_compute in H; try discriminate H; vm_compute; auto.
 Qed.
